@@ -247,7 +247,7 @@ CLAIMS.update({
              "catalogue entry of these classes satisfies the predicate of its class (by computation). Still REFUTED "
              "on the faithful model: guard typing (D12b): literal or number as condition, numbers under And / Or / !, "
              "boolean literal in arithmetic, operands of different types under == / !=, a comparison used as a number. "
-             "Correspondence: all 138 catalogue entries x 8 position kinds x wrapping depth 0..3; all of them except "
+             "Correspondence: all 149 catalogue entries x 8 position kinds x wrapping depth 0..3; all of them except "
              "the D12b entries are reported.",
         technique="Coq proof (induction on the statement tree, local lemma per fault class) + vm_compute witnesses "
                   "+ fault injection with differential correspondence",
